@@ -83,11 +83,21 @@ def probe_sd(inp: Dict[str, Any]) -> Dict[str, Any]:
         bad.append("reported as not converged although the tolerance was met before the cap"); kinds.add("report")
     # descent for every molecule (small step factor)
     # "sufficiently small step factor": descent is guaranteed for alpha <= 1/L; the stiffest bonds here (C=O, H-F) have L ~ 150 eV/A^2
+    # The descent lemma (C20.descent_step) needs alpha <= 1/L, L = Lipschitz constant of the force along the step.  |F_{i+1} - F_i| / |x_{i+1} - x_i| of the
+    # recorded step is a LOWER bound of L for that molecule: where alpha times it exceeds 1 (descent needs alpha < 2/L) the step factor is not "sufficiently small" for that molecule
+    # (N2: L ~ 300-400 eV/A^2, so 5e-3 is too large for it while it is small for water) and a rise there is not a violation.
     if inp.get("check_descent", True) and inp["alpha"] <= 5e-3:
         dE = np.diff(E, axis=0)
-        if dE.size and dE.max() > 1e-9:
-            i, m = np.unravel_index(np.argmax(dE), dE.shape)
-            bad.append(f"energy of molecule {m} rises by {dE.max():.3e} eV at iteration {i+2} (alpha={inp['alpha']})"); kinds.add("descent")
+        worst = None
+        for i in range(dE.shape[0]):
+            for m in range(dE.shape[1]):
+                dx = rec[i + 1][0][m] - rec[i][0][m]
+                dF = rec[i + 1][1][m] - rec[i][1][m]
+                L_low = float(np.linalg.norm(dF) / max(np.linalg.norm(dx), 1e-300))
+                if inp["alpha"] * L_low <= 1.0 and dE[i, m] > 1e-9 and (worst is None or dE[i, m] > worst[0]):
+                    worst = (float(dE[i, m]), i, m, L_low)
+        if worst is not None:
+            bad.append(f"energy of molecule {worst[2]} rises by {worst[0]:.3e} eV at iteration {worst[1]+2} (alpha={inp['alpha']}, alpha*L >= {inp['alpha'] * worst[3]:.2f} on that step)"); kinds.add("descent")
     # update rule and padding
     s = r["species"]
     update_ok = True
